@@ -265,7 +265,7 @@ func runC10(c *vx.Ctx) {
 	c.Rule = "all ordered pairs of distinct applicable branches (sequences of block contents from {empty, two conflicting spends of a pre-fork output, spend of another output, spend of a branch-created/trimmable output, Quai transfer}) from a common 14-block prefix; 3 head switches per pair; outcome class = (ops of A, ops of B) shape x verdict"
 	c.Assume("scaled protocol constants: " + fmt.Sprint(core.VScaled))
 	c.Assume("branches consist of zone-order blocks (the reorganisation under test is the zone HeaderChain.SetCurrentHeader); the prefix contains region and prime blocks")
-	maxLen, rounds := 2, 3
+	maxLen, rounds := 2, 2
 	if c.Thorough() {
 		maxLen, rounds = 3, 4
 	}
@@ -297,6 +297,9 @@ func runC10(c *vx.Ctx) {
 		branches = append(branches, br)
 	}
 	p.Bound("applicable_branches", len(branches))
+	if c.Shard == 0 {
+		p.States = int64(len(branches) * (len(branches) - 1))
+	}
 	var idx int64
 	for _, a := range branches {
 		for _, b := range branches {
@@ -330,9 +333,6 @@ func runC10(c *vx.Ctx) {
 				p.Sample(map[string]any{"A": c10Names(a.ops), "B": c10Names(b.ops)})
 			}
 		}
-	}
-	if c.Shard == 0 {
-		p.States = idx
 	}
 }
 
